@@ -34,13 +34,16 @@ META = {
         "Coq 8.16.1 kernel (coqc, full .vo build); no axioms",
         "hand-written Gallina model coq/theories/FormatsModel.v (emit/run_docs for Toml), tied to the code by the history "
         "correspondence (tools/history.py)",
-        "contracts on the toml crate: toml::Value refuses nulls, integers outside i64 and non-string keys; "
-        "to_string_pretty(table) is one valid TOML document that reads back as the table (validated with Python tomllib)",
+        "hand-written Gallina model coq/theories/TomlAcceptModel.v of toml::Value's Deserialize as xt drives it (first offence in "
+        "document order) and xt's root check, tied to the code by the verdict-class correspondence (TV cases: generated MessagePack "
+        "documents with planted offences); toml's private date-time marker key is not modelled and never generated",
+        "contract on the toml crate: to_string_pretty(table) is one valid TOML document that reads back as the table (validated "
+        "with Python tomllib)",
         "extraction (ExtrOcamlBasic only), model_driver/driver.ml, harness/src/session.rs, tools/*.py",
     ],
     "assumptions": [],
-    "explanation": "the state machine (used flag, buffering, single write) is proved; refusals and validity of the emitted TOML "
-                   "are third-party behaviour checked by the oracle",
+    "explanation": "the state machine (used flag, buffering, single write) and the refusal decision are proved on models tied to "
+                   "the code by correspondence; validity of the emitted TOML is third-party behaviour checked by the oracle",
 }
 
 MULTI = "TOML does not support multi-document output"
